@@ -5,7 +5,7 @@ import glob, json, os, re
 def key(f):
     sid = f.split('/')[-2]
     prop, rest = sid.split('-', 1)
-    rnd = 2 if rest.startswith('r2.') else 1
+    rnd = int(rest[1]) if rest.startswith('r') else 1
     return (prop, rnd, int(rest.split('.')[-1]))
 
 rows = []
@@ -25,8 +25,11 @@ for f in sorted(glob.glob('/verif/seeded/*/meta.json'), key=key):
         late += 1
         h = m['history']
         hist = ' — at first ' + h.split('caught after')[0].strip().rstrip(';').replace('missed at first', 'missed').replace('harness error at first', 'a harness error') + '; caught after ' + h.split('caught after', 1)[1].strip() if 'caught after' in h else ' — ' + h
-    rows.append(f"| {m['id']} | {title} | {'detected' if r['rc'] == 1 else 'MISSED'}: `{keys}`{hist.replace('|', '/')} |")
-tbl = (f"{n} seeded changes, {det} detected by the check of their own property, {late} of them only after the check was strengthened.\n\n"
+    notj = m.get('history', '').startswith('NOT judged')
+    label = 'detected' if r['rc'] == 1 else ('not judged' if notj else 'MISSED')
+    rows.append(f"| {m['id']} | {title} | {label}: `{keys}`{hist.replace('|', '/')} |")
+tbl = (f"{n} seeded changes, {det} detected by the check of their own property ({late} carry a note: caught only after the check was "
+       f"strengthened, or strengthened on reading the sub-agent's report before the first evaluation), {n - det} not judged by decision.\n\n"
        "| seeded id | change (sub-agent's title) | check of that property |\n|---|---|---|\n" + "\n".join(rows) + "\n")
 p = '/verif/DESIGN.md'
 s = open(p).read()
